@@ -301,7 +301,7 @@ def check(pm: ProgramModel, ctx: Ctx) -> None:
 from ..codec import broken_variant as _broken_variant  # noqa: E402
 
 
-def after_failure(pm: ProgramModel, ctx: Ctx, docs: dict[str, list[tuple[str, Any, Any]]]) -> None:
+def after_failure(pm: ProgramModel, ctx: Ctx, docs: dict[str, list[tuple[str, Any, Any]]], rule: str = "C02-REUSE") -> None:
     """One reader object whose transform() failed on a document it cannot represent, the file then replaced by a good
     document and the same object asked again: the model must be the one a new reader object builds (nothing of the failed
     attempt - a scope, a partial table - may be left in the object). A reader that declines a second call is reported as
@@ -329,7 +329,7 @@ def after_failure(pm: ProgramModel, ctx: Ctx, docs: dict[str, list[tuple[str, An
             continue
         try:
             it.call(tr, [r1])
-            ctx.info("C02-REUSE", key, where, f"{reader} accepts the document made to fail ({label} + an unknown construct)")
+            ctx.info(rule, key, where, f"{reader} accepts the document made to fail ({label} + an unknown construct)")
             continue
         except (AbsRaise, AbsMutation):
             pass
@@ -340,11 +340,11 @@ def after_failure(pm: ProgramModel, ctx: Ctx, docs: dict[str, list[tuple[str, An
         try:
             again = it.call(tr, [r1])
         except (AbsRaise, AbsMutation) as exc:
-            ctx.info("C02-REUSE", key, where, f"{reader}: a reader object asked again after a failed reading declines: {exc.what}")
+            ctx.info(rule, key, where, f"{reader}: a reader object asked again after a failed reading declines: {exc.what}")
             continue
         dd = diff(describe(fresh["model"]), describe(again), ctc_names=True)
         wf = wellformed(again)
-        ctx.check(not dd and not wf, "C02-REUSE", key, where,
+        ctx.check(not dd and not wf, rule, key, where,
                   "a reader object asked again after a failed reading builds the model a new reader object builds",
                   bad=f"{reader}: after a reading that failed half-way the same object, asked to read a good document, builds "
                       f"another model than a new reader does: {(dd or wf or [('', '')])[0][1]}")
